@@ -182,6 +182,11 @@ class Documentable:
         lineno, doc = astutils.extract_docstring(node)
         self.docstring = doc
         self.docstring_lineno = lineno
+        # The object might already have a parsed docstring at this point: the one of
+        # a @ivar, @cvar or @var field of the docstring of its parent, see extract_fields().
+        # The docstring of the object itself takes precedence: forget the parsed field,
+        # else it would be presented and reported as if it was written here.
+        self.parsed_docstring = None
 
     def setLineNumber(self, lineno: LineFromDocstringField | LineFromAst | int) -> None:
         """
